@@ -284,7 +284,14 @@ func (r *Run) Violation(prop, key, msg string, witness any) {
 		first := r.foreign[prop] == 1
 		r.mu.Unlock()
 		if first {
-			r.writeResult(map[string]any{"type": "foreign", "property": prop, "key": key, "msg": msg})
+			// the witness of the first foreign observation is kept too: it belongs to another
+			// property's check, but it may point at a weakness of that check's own workload
+			path := filepath.Join(r.Cfg.ReplayDir, fmt.Sprintf("%s-saw-%s-%s-%d.json", r.Prop, prop, r.Cfg.Tier, r.Cfg.Seed))
+			doc := map[string]any{"property": prop, "observed_while_running": r.Prop, "key": key, "msg": msg, "tier": r.Cfg.Tier, "seed": r.Cfg.Seed, "witness": witness}
+			if b, err := json.MarshalIndent(doc, "", " "); err == nil {
+				os.WriteFile(path, b, 0o644)
+			}
+			r.writeResult(map[string]any{"type": "foreign", "property": prop, "key": key, "msg": msg + " (witness: " + path + ")"})
 		}
 		return
 	}
